@@ -10,6 +10,21 @@ namespace VaxisModel.Lemmas.ImageTerm
 open VaxisModel.Model.ImageFit VaxisModel.Model.ImageTerm VaxisModel.Gen.ImageConsts VaxisModel.Lemmas.ImageFit
 open VaxisModel.Model.Blocks
 
+/-- The regenerated shape of `cellPixelSize`: both axes start at 1 and take the quotient when `cells > 0` and the
+    quotient `> 0`. -/
+theorem cellPixelSize_shape :
+    cellPixelSizeW = some ⟨1, .gt, 0, .gt, 0⟩ ∧ cellPixelSizeH = some ⟨1, .gt, 0, .gt, 0⟩ := by decide
+
+theorem termCellWith_std (pix cells : Int) : termCellWith (some ⟨1, .gt, 0, .gt, 0⟩) pix cells = termCell pix cells := by
+  unfold termCellWith termCell
+  simp only [evalCmpI, Bool.and_eq_true, decide_eq_true_eq, gt_iff_lt, Int.cast_ofNat_Int]
+
+theorem termCellW_eq (pix cells : Int) : termCellW pix cells = termCell pix cells := by
+  unfold termCellW; rw [cellPixelSize_shape.1]; exact termCellWith_std pix cells
+
+theorem termCellH_eq (pix cells : Int) : termCellH pix cells = termCell pix cells := by
+  unfold termCellH; rw [cellPixelSize_shape.2]; exact termCellWith_std pix cells
+
 theorem termCell_pos (pix cells : Int) : 0 < termCell pix cells := by
   unfold termCell
   split
